@@ -1,9 +1,9 @@
 package main
 
 import (
-	"go/types"
 	"fmt"
 	"go/token"
+	"go/types"
 	"sort"
 	"strings"
 
